@@ -121,6 +121,17 @@ def _T():
         # ---- 32: the model is deleted under its second new name (needs B's
         # relation to it gone first: template 20 deletes B)
         {'op': 'delete_model', 'model': 'D'},
+        # ---- 33.. : a Meta index on a column whose name differs from its
+        # field's (B.fk -> fk_id) next to a change of the field's own index;
+        # a ChangeField that restates the current field type
+        {'op': 'change_meta', 'model': 'B', 'prop': 'indexes',
+         'value': [{'fields': ['fk'], 'name': 'ix_enum_fk'}]},
+        {'op': 'change_field', 'model': 'B', 'name': 'fk',
+         'attrs': {'db_index': False}},
+        {'op': 'change_field', 'model': 'A', 'name': 'f1',
+         'attrs': {'max_length': 40}, 'restate_type': True},
+        {'op': 'change_field', 'model': 'B', 'name': 'fk',
+         'attrs': {'db_index': True}},
     ]
     for e in t:
         e['app'] = 'app1'
@@ -134,6 +145,9 @@ EXTRA_SEQS = [
     [16, 22, 27, 22, 16],       # Meta.indexes replaced and restored
     [10, 22, 11],               # field index dropped and re-created
     [20, 18, 29, 32],           # renamed twice, then deleted
+    [34, 33, 36],               # field index dropped, Meta index on the same
+    [34, 22, 33, 36],           # column (fk_id) added, field index restored
+    [33, 34, 36],
 ]
 N_FIELD_TEMPLATES = 14      # templates 0..13 only touch fields of model A
 TEMPLATES = _T()
@@ -236,8 +250,10 @@ def applicable(spec, e):
         if e.get('new_kind'):
             return fd['kind'] != e['new_kind']
         # only real changes (a no-op ChangeField is legal but uninteresting)
-        return any(fd.get(k, False if k in ('null', 'db_index', 'unique')
-                          else None) != v for k, v in e['attrs'].items())
+        dflt = {'null': False, 'unique': False,
+                'db_index': fd['kind'] == 'ForeignKey'}
+        return any(fd.get(k, dflt.get(k)) != v
+                   for k, v in e['attrs'].items())
     if op == 'change_meta':
         cur = (spec[app][m].get('meta') or {}).get(e['prop']) or []
         if cur == e['value']:
